@@ -12,7 +12,7 @@ RULE = ("compile() on: random character strings over a hostile alphabet (CEL pun
         "controls, BOM, 2-4 byte UTF-8; length <= 64, some to 4 KiB), random token sequences (1-40 tokens of "
         "every lexer token kind incl. malformed number / string fragments), grammar-generated valid expressions "
         "(depth <= 8, nesting chains to 32, && / || chains of 64), every single-token insert / delete / replace / "
-        "truncate mutation of valid expressions, five invalid-by-construction families (unbalanced bracket, "
+        "truncate mutation of valid expressions, whitespace-free dotted paths over names / keywords / non-names (exhaustive to 3 segments), lexically fine but undecodable or out-of-range literals at random places of single- and multi-line programs, five invalid-by-construction families (unbalanced bracket, "
         "dangling operator, trailing token, unterminated literal, unknown character) and exhaustively all "
         "sequences of <= 2 (quick) / <= 3 (thorough) tokens over a 45-token alphabet; non-trivial = text that "
         "is neither empty nor a single token; distinct = distinct text")
@@ -48,6 +48,9 @@ def units(tier, seed):
         us.append(('invalid', i))
     us.append(('nesting',))
     us.append(('macrocalls',))
+    us.append(('paths',))
+    for i in range(2 if tier == 'quick' else 24):
+        us.append(('literalerrs', i))
     return us
 
 
@@ -223,6 +226,57 @@ def run_unit(unit, drv, res, seed, tier):
                         texts.append('l.%s(%s).%s(%s)' % (name, a, name, a))
         run_texts(res, drv, texts, 'macrocalls')
         res.exhaustive_done['macro-names-x-arity-0-4'] = True
+    elif kind == 'paths':
+        # dotted / indexed / call paths written without any whitespace, every segment drawn from names,
+        # keywords, reserved words and non-names: 'a.in', 'x.true.y', 'a.1', '.a', 'a..b' ... must be rejected,
+        # plain name paths accepted; also bracketed and padded spellings of the same path
+        segs = ['a', 'b_1', '_', 'in', 'true', 'false', 'null', 'has', 'all', 'size', '1', '', 'f()', 'x[0]', 'as', 'inn', 'True']
+        texts = []
+        for n in (1, 2, 3):
+            for combo in itertools.product(segs, repeat=n):
+                t = '.'.join(combo)
+                texts += [t, ' ' + t + '\n', '(' + t + ')', t + '.z', 'q.' + t]
+        for combo in itertools.product(['a', 'in', 'true', 'null', 'false', 'zz'], repeat=4):
+            texts.append('.'.join(combo))
+        texts = list(dict.fromkeys(texts))
+        run_texts(res, drv, texts, 'paths')
+        res.exhaustive_done['dotted-paths-len-1-3-over-17-segments'] = True
+    elif kind == 'literalerrs':
+        # literals the lexer accepts but the tree builder must refuse (undecodable escapes, numbers out of
+        # range) at every place of single- and multi-line programs: the positions of those errors are
+        # computed by the visitor, not by the ANTLR error listener
+        bad_esc = ['\\ud800', '\\udfff', '\\uDBFF', '\\U00110000', '\\UFFFFFFFF', '\\U0000D800', '\\400', '\\777']
+        bad_num = ['9223372036854775808', '99999999999999999999999', '18446744073709551616u', '0x8000000000000000',
+                   '0xFFFFFFFFFFFFFFFFFu', '0x1FFFFFFFFFFFFFFFF']
+        fill = ['', 'a', 'ab', 'abcdefghij', 'é', '日本語', '𝄞𝄞', ' ', '\t', 'x' * 40]
+        nl = ['\n', '\n\n', '\r\n', '\n \n']
+        texts = []
+        for _ in range(400):
+            parts = []
+            for _k in range(rng.randint(1, 3)):
+                kind2 = rng.random()
+                if kind2 < 0.7:
+                    q = rng.choice(["'''", '"""', "'''", '"""', "'", '"', "b'''", 'b"""', "b'"])
+                    triple = len(q.lstrip('b')) == 3
+                    body = ''
+                    for _j in range(rng.randint(0, 4)):
+                        body += rng.choice(fill) + (rng.choice(nl) if triple and rng.random() < 0.7 else '')
+                    body += rng.choice(bad_esc)
+                    for _j in range(rng.randint(0, 2)):
+                        body += (rng.choice(nl) if triple and rng.random() < 0.5 else '') + rng.choice(fill)
+                    if rng.random() < 0.3:
+                        body += (rng.choice(nl) if triple else '') + rng.choice(bad_esc)
+                    parts.append(q + body + q.lstrip('b'))
+                else:
+                    parts.append(rng.choice(bad_num))
+            sep = rng.choice([' + ', '\n+\n', ' +\n', ', '])
+            body = sep.join(parts)
+            if sep == ', ':
+                body = rng.choice(['[%s]', 'f(%s)', '[\n%s\n]']) % body
+            lead = rng.choice(['', '', '\n', ' \n  ', 'x +\n', '\n\n\n', '[1,\n 2] + '])
+            tail = rng.choice(['', '', '\n', ' + y', '\n+ y\n', ' )', ' +'])
+            texts.append(lead + body + tail)
+        run_texts(res, drv, texts, 'literalerrs')
     elif kind == 'nesting':
         texts = []
         for d in (1, 2, 4, 8, 16, 24, 31, 32):
